@@ -6,7 +6,7 @@ From PegV Require Import Base.Tac Spec.Syntax Spec.Peg Spec.Tokens Model.Machine
     paired with the span of the most recently completed capture (PegText node) that precedes it;
     nothing outside the derivation (backtracked branches, lookahead) is in the forest at all. *)
 Theorem C04_execute_trace :
-  forall g ptx buf penv, good_grammar g -> good_buf buf ->
+  forall g ptx buf penv, good_grammar g -> good_buf buf -> good_switches g ->
   forall memo inline n r st0 p f evs,
     slot_ok g inline r -> peg_parse g ptx buf penv n r = Some (Succ p f, evs) ->
     exists st', machine g ptx buf penv memo inline n r st0 = Some (Ret true st') /\
